@@ -26,6 +26,13 @@ use std::io::Write;
 use std::panic::{catch_unwind, AssertUnwindSafe};
 use std::time::{Duration, Instant};
 
+/// run-wide configuration some monitors need (C19: the `cedar` binary, a scratch directory)
+pub struct Config {
+    pub cli: Option<String>,
+    pub out: String,
+}
+pub static CONFIG: std::sync::OnceLock<Config> = std::sync::OnceLock::new();
+
 thread_local! {
     static LAST_PANIC: RefCell<Option<(String, String)>> = const { RefCell::new(None) };
 }
@@ -95,6 +102,7 @@ fn run(args: &[String]) {
     let out = arg_val(args, "--out").unwrap_or_else(|| ".".into());
     let only_case: Option<u64> = arg_val(args, "--case").map(|s| s.parse().expect("case"));
     let verbose = args.iter().any(|a| a == "-v");
+    let _ = CONFIG.set(Config { cli: arg_val(args, "--cli"), out: out.clone() });
 
     let monitor = monitors::lookup(&prop).unwrap_or_else(|| {
         eprintln!("no monitor for {}", prop);
@@ -126,7 +134,10 @@ fn run(args: &[String]) {
         if r.is_err() {
             let (loc, msg) = take_last_panic().unwrap_or(("?".into(), "?".into()));
             if is_library_location(&loc) {
-                ctx.violation(&format!("panic:{}", loc), format!("panic inside the library: {}", msg), serde_json::json!({"location": loc, "message": msg}));
+                // signature = file (without the line, which moves with unrelated edits) + start of the message
+                let file = loc.rsplit_once(':').map(|(f, _)| f).unwrap_or(&loc).to_string();
+                let head: String = msg.chars().take(48).map(|c| if c.is_control() { ' ' } else { c }).collect();
+                ctx.violation(&format!("panic:{}:{}", file, head.trim()), format!("panic inside the library at {}: {}", loc, msg), serde_json::json!({"location": loc, "message": msg}));
             } else {
                 ctx.harness_error(format!("harness panic at {}: {}", loc, msg));
             }
